@@ -69,7 +69,7 @@ def coverage_extra(tier, col):
     return {"exhaustive": True, "exhaustive_note": "every genotype of every (ploidy, n_alleles) cell for the listed F grid and frequency vectors"}
 
 
-def freq_vectors(rng, na):
+def freq_vectors(rng, na, extra=0):
     out = [("none", None), ("flat", np.full(na, 1.0 / na))]
     if na >= 2:
         f = rng.dirichlet(np.ones(na))
@@ -84,6 +84,10 @@ def freq_vectors(rng, na):
         # rational frequencies for the exact check
         ints = rng.integers(1, 9, size=na)
         out.append(("rational", ints / ints.sum()))
+        for e in range(extra):
+            f = rng.dirichlet(np.ones(na) * float(rng.choice([0.2, 1.0, 5.0])))
+            f = np.maximum(f, 1e-9)
+            out.append(("rand%d" % e, f / f.sum()))
     return out
 
 
@@ -91,11 +95,12 @@ def relclose(a, b, tol=TOL):
     return abs(a - b) <= tol * max(abs(a), abs(b)) + 1e-300
 
 
-def run_cell(ploidy, na, rng, col, K, spec_name):
+def run_cell(ploidy, na, rng, col, K, spec_name, tier="quick"):
     gs = M.genotypes_vcf_order(na, ploidy)
     arr = np.array(gs, dtype=np.int64).reshape(len(gs), ploidy)
-    Fs = list(F_GRID) + [float(rng.uniform(0.001, 0.99))]
-    for fname, f in freq_vectors(rng, na):
+    n_extra = 0 if tier == "quick" else (4 if len(gs) <= 1000 else 1)
+    Fs = list(F_GRID) + [float(rng.uniform(0.001, 0.99)) for _ in range(1 + n_extra)]
+    for fname, f in freq_vectors(rng, na, extra=n_extra):
         for F in Fs:
             cell = {"ploidy": ploidy, "n_alleles": na, "F": F, "freq": None if f is None else f.tolist()}
             lps = np.empty(len(gs))
@@ -227,7 +232,7 @@ def run_shard(tier, seed, spec, col):
     K = kernels()
     for ploidy, na, n in spec["cells"]:
         rng = gen.rng_for(seed, ID, ploidy * 100 + na, 0)
-        run_cell(ploidy, na, rng, col, K, spec["name"])
+        run_cell(ploidy, na, rng, col, K, spec["name"], tier)
     rng = gen.rng_for(seed, ID, 1000 + spec["shard"], 0)
     run_assemble(rng, col, K, 200 if tier == "quick" else 2000) if spec["shard"] < 16 else None
 
